@@ -697,18 +697,31 @@ func TestStandinStack(t *testing.T) {
 // text, which goes through the compiled program) must equal set algebra over the parts of the expression.
 type kitem struct {
 	text string
-	has  func(r rune, ecma bool) bool
+	has  func(r rune, mode int) bool // mode: 0 default, 1 ECMAScript, 2 RE2
 }
 
-func kword(r rune, ecma bool) bool {
+func kascii(r rune) bool { return r < 128 }
+func kword(r rune, mode int) bool {
 	if r < 128 {
 		return r == '_' || (r >= '0' && r <= '9') || (r >= 'a' && r <= 'z') || (r >= 'A' && r <= 'Z')
 	}
-	return !ecma && unicode.IsLetter(r)
+	// default mode: letters, marks, decimal digits, connector punctuation (the universe holds only letters above ASCII)
+	return mode == 0 && (unicode.IsLetter(r) || unicode.Is(unicode.Mn, r) || unicode.Is(unicode.Nd, r) || unicode.Is(unicode.Pc, r))
 }
-func kdigit(r rune, ecma bool) bool { return r >= '0' && r <= '9' }
-func kspace(r rune, ecma bool) bool {
-	return r == ' ' || (r >= '\t' && r <= '\r')
+func kdigit(r rune, mode int) bool {
+	if mode == 0 {
+		return unicode.Is(unicode.Nd, r)
+	}
+	return r >= '0' && r <= '9'
+}
+func kspace(r rune, mode int) bool {
+	switch mode {
+	case 1: // ECMAScript WhiteSpace + LineTerminator, as far as the universe goes
+		return r == ' ' || (r >= '\t' && r <= '\r') || r == 0xa0 || r == 0xfeff || r == 0x2028 || r == 0x2029
+	case 2: // RE2: [\t\n\f\r ]
+		return r == ' ' || r == '\t' || r == '\n' || r == '\f' || r == '\r'
+	}
+	return unicode.IsSpace(r)
 }
 
 func klit(c rune) kitem {
@@ -716,10 +729,10 @@ func klit(c rune) kitem {
 	if c == '-' || c == ']' || c == '^' || c == '\\' {
 		s = `\` + s
 	}
-	return kitem{s, func(r rune, _ bool) bool { return r == c }}
+	return kitem{s, func(r rune, _ int) bool { return r == c }}
 }
 func krange(a, b rune) kitem {
-	return kitem{string(a) + "-" + string(b), func(r rune, _ bool) bool { return a <= r && r <= b }}
+	return kitem{string(a) + "-" + string(b), func(r rune, _ int) bool { return a <= r && r <= b }}
 }
 
 type kclass struct {
@@ -744,15 +757,15 @@ func (c *kclass) String() string {
 
 // set algebra: the members named by the items (closed under simple case folding with IgnoreCase), complemented if
 // negated, minus the subtracted class
-func (c *kclass) has(r rune, ecma, ignoreCase bool) bool {
+func (c *kclass) has(r rune, mode int, ignoreCase bool) bool {
 	in := false
 	for _, it := range c.items {
-		if it.has(r, ecma) {
+		if it.has(r, mode) {
 			in = true
 		}
 		if ignoreCase {
 			for f := unicode.SimpleFold(r); f != r; f = unicode.SimpleFold(f) {
-				if it.has(f, ecma) {
+				if it.has(f, mode) {
 					in = true
 				}
 			}
@@ -761,42 +774,66 @@ func (c *kclass) has(r rune, ecma, ignoreCase bool) bool {
 	if c.neg {
 		in = !in
 	}
-	return in && !(c.sub != nil && c.sub.has(r, ecma, ignoreCase))
+	return in && !(c.sub != nil && c.sub.has(r, mode, ignoreCase))
 }
 
 func TestStandinClass(t *testing.T) {
 	level := factsEnvInt("STANDIN_EXEC_LEVEL", 1)
 	x := &xrun{show: factsEnvInt("STANDIN_FACTS_SHOW", 8)}
 	items := []kitem{klit('a'), klit('z'), klit('A'), klit('0'), klit('_'), klit('-'), klit('é'), klit('\u007f'), krange('a', 'c'), krange('A', 'C'), krange('x', 'z'), krange('0', '5'), krange(' ', '/'), krange('\u0000', 'a'),
-		{`\d`, kdigit}, {`\D`, func(r rune, e bool) bool { return !kdigit(r, e) }}, {`\w`, kword}, {`\W`, func(r rune, e bool) bool { return !kword(r, e) }},
-		{`\s`, kspace}, {`\S`, func(r rune, e bool) bool { return !kspace(r, e) }}}
+		{`\d`, kdigit}, {`\D`, func(r rune, m int) bool { return !kdigit(r, m) }}, {`\w`, kword}, {`\W`, func(r rune, m int) bool { return !kword(r, m) }},
+		{`\s`, kspace}, {`\S`, func(r rune, m int) bool { return !kspace(r, m) }}}
+	// Unicode categories (default mode) and POSIX names (RE2 mode)
+	cased := func(r rune) bool { return unicode.IsLower(r) || unicode.IsUpper(r) || unicode.IsTitle(r) }
+	catItems := []kitem{{`\p{Ll}`, func(r rune, m int) bool { return unicode.Is(unicode.Ll, r) }}, {`\p{Lu}`, func(r rune, m int) bool { return unicode.Is(unicode.Lu, r) }},
+		{`\P{L}`, func(r rune, m int) bool { return !unicode.IsLetter(r) }}, {`\p{Nd}`, func(r rune, m int) bool { return unicode.Is(unicode.Nd, r) }}, {`\P{Nd}`, func(r rune, m int) bool { return !unicode.Is(unicode.Nd, r) }}}
+	_ = cased
+	posixItems := []kitem{{`[:alpha:]`, func(r rune, m int) bool { return kascii(r) && unicode.IsLetter(r) }}, {`[:^alpha:]`, func(r rune, m int) bool { return !(kascii(r) && unicode.IsLetter(r)) }},
+		{`[:digit:]`, func(r rune, m int) bool { return r >= '0' && r <= '9' }}, {`[:^digit:]`, func(r rune, m int) bool { return !(r >= '0' && r <= '9') }},
+		{`[:space:]`, func(r rune, m int) bool { return r == ' ' || (r >= '\t' && r <= '\r') }}, {`[:upper:]`, func(r rune, m int) bool { return r >= 'A' && r <= 'Z' }},
+		{`[:word:]`, func(r rune, m int) bool { return kword(r, 2) }}, {`[:punct:]`, func(r rune, m int) bool { return kascii(r) && unicode.IsPunct(r) || kascii(r) && unicode.IsSymbol(r) }}}
 	subs := []*kclass{nil, {items: []kitem{klit('b')}}, {items: []kitem{klit('B')}}, {items: []kitem{krange('a', 'b')}}, {items: []kitem{{`\d`, kdigit}}}, {neg: true, items: []kitem{klit('a')}},
 		{items: []kitem{krange('a', 'z')}, sub: &kclass{items: []kitem{klit('c')}}}}
 	var classes []*kclass
-	for _, neg := range []bool{false, true} {
-		for _, sub := range subs {
-			for i, a := range items {
-				classes = append(classes, &kclass{neg: neg, items: []kitem{a}, sub: sub})
-				for j, b := range items {
-					if level < 2 && (i+j)%2 == 1 {
-						continue
+	only := map[*kclass]int{} // class -> the one mode whose syntax it uses (0 = any)
+	gen := func(pool []kitem, extra []kitem, mode int) {
+		for _, neg := range []bool{false, true} {
+			for _, sub := range subs {
+				for i, a := range extra {
+					c := &kclass{neg: neg, items: []kitem{a}, sub: sub}
+					classes = append(classes, c)
+					only[c] = mode
+					for j, b := range pool {
+						if level < 2 && mode == 0 && (i+j)%2 == 1 {
+							continue
+						}
+						c := &kclass{neg: neg, items: []kitem{a, b}, sub: sub}
+						classes = append(classes, c)
+						only[c] = mode
+						if mode != 0 && (i+j)%3 == 0 {
+							c := &kclass{neg: neg, items: []kitem{b, a}, sub: sub}
+							classes = append(classes, c)
+							only[c] = mode
+						}
 					}
-					classes = append(classes, &kclass{neg: neg, items: []kitem{a, b}, sub: sub})
 				}
 			}
 		}
 	}
+	gen(items, items, 0)
+	gen(append(append([]kitem(nil), items...), catItems...), catItems, 10) // default-mode syntax only
+	gen(append(append([]kitem(nil), items[:14]...), posixItems...), posixItems, 12) // RE2 syntax only
 	var universe []rune
 	for r := rune(0); r < 128; r++ {
 		universe = append(universe, r)
 	}
-	universe = append(universe, 0x80, 0xC9, 0xE9, 0xD7, 0xFF, 0x100, 0x3B1, 0x391, 0x434, 0x414)
+	universe = append(universe, 0x80, 0x85, 0xA0, 0xC9, 0xE9, 0xD7, 0xFF, 0x100, 0x3B1, 0x391, 0x434, 0x414, 0x660, 0x2028)
 	type kopt struct {
 		opt  RegexOptions
 		sub  bool // class subtraction is available
-		ecma bool
+		mode int
 	}
-	opts := []kopt{{None, true, false}, {IgnoreCase, true, false}, {ECMAScript, false, true}, {IgnoreCase | ECMAScript, false, true}, {RightToLeft, true, false}}
+	opts := []kopt{{None, true, 0}, {IgnoreCase, true, 0}, {ECMAScript, false, 1}, {IgnoreCase | ECMAScript, false, 1}, {RightToLeft, true, 0}, {RE2, false, 2}, {RE2 | IgnoreCase, false, 2}}
 	x.patterns = len(classes)
 	var nodes []xnode
 	for i := range classes {
@@ -811,7 +848,13 @@ func TestStandinClass(t *testing.T) {
 			if c.sub != nil && !o.sub {
 				continue
 			}
-			if o.opt&IgnoreCase != 0 && strings.ContainsAny(c.String(), "WDS") {
+			if m := only[c]; (m == 10 && o.mode != 0) || (m == 12 && o.mode != 2) {
+				continue
+			}
+			if o.opt&IgnoreCase != 0 && only[c] == 10 {
+				continue // \p{Ll} and friends mean "any cased letter" under IgnoreCase: a rule of its own, left out
+			}
+			if o.opt&IgnoreCase != 0 && strings.ContainsAny(c.String(), "WDSP^") {
 				// the complement shorthands contain letters whose case mapping has no agreed meaning (U+0130, U+212A):
 				// outside the property's domain under IgnoreCase
 				continue
@@ -827,7 +870,7 @@ func TestStandinClass(t *testing.T) {
 					if r == 'x' || r == 'X' {
 						continue
 					}
-					want := c.has(r, o.ecma, o.opt&IgnoreCase != 0)
+					want := c.has(r, o.mode, o.opt&IgnoreCase != 0)
 					got, err := re.MatchRunes([]rune{r})
 					lc++
 					if want {
